@@ -481,6 +481,11 @@ func encodeReq(k int, a *sReq) []byte {
 	req.Header.AttestationCapableIndicator = h%7 == 3
 	if h%4 == 1 {
 		req.Header.ServerCorrelationValue = fmt.Sprintf("srv-%d-%d", k, h)
+		if h%8 == 1 {
+			// ... or something that looks exactly like a session ID - of this or of another connection: it is the CLIENT's
+			// say-so and identifies nothing
+			req.Header.ServerCorrelationValue = fmt.Sprintf("%08x", 1+h%3)
+		}
 	}
 	if h%6 == 2 {
 		req.Header.AttestationType = []kmip.Enum{1, 2}
@@ -505,8 +510,16 @@ func encodeReq(k int, a *sReq) []byte {
 			CredentialValue: kmip.CredentialUsernamePassword{Username: user, Password: pass},
 		}
 	}
-	for _, it := range a.items {
-		req.BatchItems = append(req.BatchItems, kmip.RequestBatchItem{Operation: kmip.Enum(it.op), UniqueID: it.uid, RequestPayload: reqPayload(it.op, it.payload)})
+	for i, it := range a.items {
+		bi := kmip.RequestBatchItem{Operation: kmip.Enum(it.op), UniqueID: it.uid, RequestPayload: reqPayload(it.op, it.payload)}
+		// a Message Extension on some items - critical or not, it is the handler's business: the item is dispatched like any other
+		switch (h + i*5) % 7 {
+		case 2:
+			bi.MessageExtension = kmip.MessageExtension{VendorIdentification: "acme", CriticalityIndicator: true}
+		case 5:
+			bi.MessageExtension = kmip.MessageExtension{VendorIdentification: "acme-trace"}
+		}
+		req.BatchItems = append(req.BatchItems, bi)
 	}
 	var buf bytes.Buffer
 	if err := kmip.NewEncoder(&buf).Encode(&req); err != nil {
